@@ -39,6 +39,14 @@ inductive Res
   | void
   deriving DecidableEq, Repr, Inhabited
 
+/-- the three ways to obtain a cursor range from a group view:
+    `g.cursor_range(c)`, `g.cursor_subrange(c, pos)`, `g.cursor_subrange(c, pos, count)` -/
+inductive RangeKind
+  | all
+  | sub (pos : Nat)
+  | subn (pos count : Nat)
+  deriving DecidableEq, Repr, Inhabited
+
 end Sbepp.Cursor
 
 namespace Sbepp.Gen
